@@ -547,6 +547,11 @@ func (vc *VC) runOnce() {
 	if !vc.dry {
 		vc.obls = append(vc.obls, &Obl{Name: "vac:requires", Kind: "vac", PC: st.pc, Goal: F, Expect: "sat", Pos: vc.W.Fset.Position(fn.Pos())})
 	}
+	vc.lockFrame()
+	if vc.Con.Has("frame-only") {
+		// only the lock discipline of this goroutine body is under contract; its data flow is not executed symbolically
+		return
+	}
 	rets := vc.execBlocks(fn, st, nil)
 	vc.results = rets
 	if len(rets) == 0 {
